@@ -3,6 +3,11 @@
 import json
 
 CLAIMED = {
+    "C06": {
+        "text": "Proof: for arbitrary operand expressions and arbitrary evaluation states the Lean theorems show that `a && b` with a false, `a || b` with a true and `c ? x : y` leave the state (host-call log, step counter) exactly as the needed operands left it, so nothing of the skipped operand - error, panic or host call - happens, at any depth and in macro bodies; the model is tied to the code by enumerating operator trees over erroring/logging operands and comparing outcome and ordered call log with the model and with an independent reference interpreter of the short-circuit rules.",
+        "technique": "Lean 4 theorems about the monadic evaluator (state = log + steps) by unfolding callNode + differential correspondence with call-logging host functions",
+        "design_ref": "DESIGN.md section 5, C06",
+    },
     "C08": {
         "text": "Proof: 25 Lean theorems state, for all int/uint operands, that + - * / % and unary minus of the model are exact-or-overflow, that division truncates and (a/b)*b+a%b=a, that the remainder has the dividend's sign, that mixed numeric kinds are an error and that no operand makes the operators panic; the model is tied to this working tree by exhaustive boundary-pair correspondence (all ordered pairs of 78 i64 and 57 u64 boundary values under 5 operators, directly and through the evaluator) plus an independent i128 oracle.",
         "technique": "Lean 4 theorems over Int with range predicates (omega + Int.tdiv/tmod lemmas) + differential correspondence against the Lean model",
